@@ -147,6 +147,10 @@ pub fn run_check(spec: &CheckSpec, tier: Tier) -> i32 {
     let harness_errors: Mutex<Vec<String>> = Mutex::new(vec![]);
     let total = Mutex::new(Acc::default());
 
+    // enumeration engines running in child processes (C15) stop evaluating further fault points
+    // of a base run once the batch's wall-clock budget plus a third is used up
+    let deadline = std::time::SystemTime::now().duration_since(std::time::UNIX_EPOCH).map(|n| n.as_millis()).unwrap_or(0) + (wall * 1333.0) as u128;
+    std::env::set_var("RAINSIM_DEADLINE_MS", deadline.to_string());
     let skip_seeds = crate::watchdog::skipped_seeds();
     let skip_seeds = &skip_seeds;
     std::thread::scope(|scope| {
@@ -170,7 +174,12 @@ pub fn run_check(spec: &CheckSpec, tier: Tier) -> i32 {
                         continue;
                     }
                     let case = (spec.gen)(rs, i, tier);
+                    let t_run = Instant::now();
                     let res = (spec.exec)(&case);
+                    if std::env::var_os("RAINSIM_TIME_RUNS").is_some() && t_run.elapsed().as_secs_f64() > 3.0 {
+                        eprintln!("slow run {} ({:016x}): {:.1}s, {} evaluations, {} steps", i, rs, t_run.elapsed().as_secs_f64(), (spec.evals)(&res), res.stats.steps);
+                        eprintln!("   keys={} keylen={} ops={} knobs={:?}", case.plan.keys.len(), case.plan.keys.last().map(|k| k.len()).unwrap_or(0), case.plan.ops.len(), case.plan.opens.first());
+                    }
                     acc.runs += 1;
                     RUNS_DONE.fetch_add(1, Ordering::Relaxed);
                     acc.evaluations += (spec.evals)(&res);
